@@ -112,6 +112,8 @@ READERS = [
     '15 X=1', 'DELETE 30', 'RENUM', 'POKE 1450,0', 'DEF SEG', 'DEF SEG=0',
     'AUTO', 'RUN', 'ON ERROR GOTO 80', 'ERROR 5', 'TRON', 'CONT', 'GOSUB 80', 'LOAD "P2.BAS"', 'CLEAR',
     'RESTORE', 'READ Q$', 'PRINT Q$', 'KEY OFF', 'X=1',
+    # the protected program is dropped and the program memory reused: nothing of it may be left behind
+    'NEW', 'LOAD "M.BAS"', '5 REM new', 'SAVE "S3"',
     # statements that replace the program, failing before they do
     'CHAIN "NOSUCH"', 'LOAD "NOSUCH"', 'RUN "NOSUCH"', 'CHAIN "M.BAS",999', 'CHAIN "Q:X"', 'COMMON )',
 ]
